@@ -24,4 +24,7 @@ try:
             print("   ", l[:300])
 finally:
     subprocess.run(["git", "-C", "/repo", "checkout", "--", "."], check=True)
-json.dump(results, open(os.path.join(seed, "check_results.json"), "w"), indent=1)
+out = os.path.join(seed, "check_results.json")
+merged = json.load(open(out)) if os.path.exists(out) else {}
+merged.update(results)
+json.dump(merged, open(out, "w"), indent=1, sort_keys=True)
